@@ -218,13 +218,18 @@ class PlanarCurve(BaseCurve):
             knotvectorb[self.degree + 1 :]
         )
         finalcurve = pynurbs.Curve(newknotvector)
-        finalcurve.ctrlpoints = tuple(self.ctrlpoints) + tuple(
-            other.ctrlpoints
-        )
+        # Work relative to the junction: the knot removal test is an
+        # absolute tolerance, it must not depend on the position
+        origin = self.ctrlpoints[-1]
+        finalcurve.ctrlpoints = tuple(
+            point - origin for point in self.ctrlpoints
+        ) + tuple(point - origin for point in other.ctrlpoints)
         finalcurve.knot_clean((node,))
         if finalcurve.degree + 1 != finalcurve.npts:
             raise ValueError("Union is not a bezier curve!")
-        return self.__class__(finalcurve.ctrlpoints)
+        return self.__class__(
+            tuple(point + origin for point in finalcurve.ctrlpoints)
+        )
 
     def __and__(self, other: PlanarCurve) -> Union[None, Tuple[Tuple[int]]]:
         """Computes the intersection between two Planar Curves
